@@ -20,7 +20,9 @@ integer and non-integer Q; fixed-sampling wrappers and Wavefront methods (both p
 shared executors (transforms, backprops, clear(), precision switches, argument-spelling aliases, same-size argument
 families) and through the fixed-sampling wrappers / to_fpm_and_back at fixed array sizes; repeat / aliasing cases;
 integer and boolean images; extreme aspect ratios; argument-form equivalence (class E) and foreign-traffic histories
-(class F) through vp/propforms.py.
+(class F) through vp/propforms.py; arrays of >= 65536 elements with output sample counts ceil / floor / round(s Q), s Q not an
+integer (class L, wl_thresholds) and every route under the numpy.fft backend (class N, wl_backend) -- hardening pass 4; the contracts
+append the class label of the driving workload (size:>=65536, backend:numpy.fft) to their mismatch keys.
 """
 import itertools
 import math
@@ -273,6 +275,12 @@ CAUSE_WHAT = {
     'start': 'czt2/iczt2 on an axis of even input length and odd output length start the convolution kernel one sample late '
              '(-((N-M)//2) instead of -(N//2 - M//2)): the output is the transform one sample off',
 }
+
+
+def key_tag():
+    """'/size:...' / '/backend:...' when the workload that drives the call declares such a class label (hardening pass 4), else ''."""
+    t = (CUR['desc'] or {}).get('keytag')
+    return f'/{t}' if t else ''
 
 
 def describe(fn, ary, Qp, out, sh, extra=None):
@@ -615,7 +623,7 @@ def engine_post(engine, fn, fwd):
                     CTX.violation(CAUSE_KEY[c], CAUSE_WHAT[c], desc, explained_by=list(causes), **detail)
                 return
         qk = 'scalar' if Qp[0] == Qp[1] else 'per-axis'
-        CTX.violation(f'C01/{fn}/{kind}-mismatch/in:{shape_kind(ary.shape)}/Q:{qk}/shift:{shift_class(sh)}',
+        CTX.violation(f'C01/{fn}/{kind}-mismatch/in:{shape_kind(ary.shape)}/Q:{qk}/shift:{shift_class(sh)}{key_tag()}',
                       f'{engine}.{fn} differs from the textbook DFT sum ({kind}; axes {axes_class(ary.shape, out)})', desc, **detail)
     return post
 
@@ -668,7 +676,7 @@ def fft_post(fn, fwd):
         kind = mismatch(result, ref, tol, False, label=f'fft-route/{"f32" if is_single(ary.dtype) else "f64"}')
         if kind is not None:
             qk = 'Q=1' if Q == 1 else ('integer-Q' if Qf.is_integer() else 'non-integer-Q')
-            CTX.violation(f'C01/{fn}/{kind}-mismatch/{qk}/pad:{axes_class((m, n), out)}',
+            CTX.violation(f'C01/{fn}/{kind}-mismatch/{qk}/pad:{axes_class((m, n), out)}{key_tag()}',
                           f'propagation.{fn} (padded FFT) differs from the textbook DFT sum on the padded grid ({kind})', desc,
                           err=float(np.max(np.abs(result - ref))), tol=tol)
     return post
@@ -731,7 +739,7 @@ def fixed_post(fn, fwd):
             causes = diagnose_czt(ary, (Q, Q), out, sh, fwd, result, tol)
             if causes:
                 return      # the nested czt2/iczt2 call already reported it under the engine key
-        CTX.violation(f'C01/{fn}/{method}/{kind}-mismatch/shift:{shift_class(sh)}',
+        CTX.violation(f'C01/{fn}/{method}/{kind}-mismatch/shift:{shift_class(sh)}{key_tag()}',
                       f'{fn}(method={method}) on a square pupil differs from the DFT with Q = lambda z/(N dx_in dx_out), shift/dx_out ({kind})',
                       desc, tol=tol)
     return post
@@ -2073,6 +2081,282 @@ def wl_sizes(ctx, rng):
                     fttools.czt.clear()
 
 
+# ---- hardening pass 4: classes L (size thresholds x near-coincidences) and N (FFT backend) ------------------------------
+RULE = RULE + ('.  Hardening pass 4 -- class L: arrays of 1 600 ... 65 536 ... 265 000 elements (256 x 256, 300 x 220, 128 x 512, 520 x 510, 1 x 70000, '
+               '40000 x 2; thorough also 1024 x 1024) through all four engine calls, the padded-FFT route and the fixed-sampling wrappers (function and '
+               'Wavefront form) with Q = 1.01, 1.001, 1.37, 2.003, 0.757, per-axis pairs and output sample counts equal to ceil / floor / round(s Q) per axis '
+               '(s Q not an integer), mixed per axis, and one more; zero shift (int 0 / float 0.0) and one-axis / two-axis shifts; judged by the ordinary '
+               'textbook-sum contracts (separable matrix products).  Class N: every route under the numpy.fft backend (vp.util.fft_backend; no '
+               'next_fast_len there, so the power-of-two fallback of the chirp-Z convolution length is live) at axis pairs m -> M with m + M - 1 a power '
+               'of two, one less, one more, prime and generic, both precisions, and a few arrays of >= 65536 elements')
+ASSUMPTIONS = ASSUMPTIONS + [
+    'swapping prysm.mathops.fft._srcmodule for numpy.fft is a documented configuration; the reference tree is correct under it for every route '
+    '(established on /repo @ 66c5405); the executors are cleared when the backend is switched',
+    'the reference sum for large arrays is the same model (long-double phases, complex128 matrix products): its own round-off (~ eps sqrt(N) of the '
+    'output magnitude) is >= 3 decades below the tolerance, which is relative to the L1 bound of the output',
+]
+REQUIRED = REQUIRED + ['size.threshold-near-coincidence', 'backend.numpy-fft']
+
+L_SHAPES_BIG = [(256, 256), (300, 220), (128, 512)]                 # >= 65536 elements
+L_SHAPES_XL = [(520, 510)]                                          # >= 262144 elements
+L_SHAPES_MID = [(40, 40), (100, 90), (128, 128), (181, 182)]        # 1600 ... 32942 elements: thresholds at other powers of two
+L_QS = [1.01, 1.37, 2.003, 1.001, (1.01, 1.37), (2.003, 1.0), 0.757]
+# quick tier: a subset of the Q list per large shape (every Q occurs on some large shape; 300 * 1.01 is an integer in floating point)
+L_QUICK_QS = {(256, 256): [1.01, 1.001, (1.01, 1.37), 1.37], (300, 220): [1.01, 0.757, (2.003, 1.0)], (128, 512): [1.37, 1.001],
+              (40, 40): [1.01, 2.003, (1.01, 1.37), 0.757], (128, 128): [1.37, 1.001, (2.003, 1.0)]}
+L_OUTKINDS = ('ceil', 'floor', 'round', 'ceil,floor', 'ceil+1')
+L_SHIFTS = {'zero-int': (0, 0), 'zero-float': (0.0, 0.0), 'x-only': (1.5, 0), 'y-only': (0.0, -2.0), 'both': (0.5, -1.25)}
+
+
+def near_counts(shp, Qp, kind):
+    """Output sample counts that (nearly) coincide with the size s Q of the zero-padded FFT grid."""
+    f = {'ceil': math.ceil, 'floor': math.floor, 'round': round}
+    if kind in f:
+        o = [f[kind](s * q) for s, q in zip(shp, Qp)]
+    elif kind == 'ceil,floor':
+        o = [math.ceil(shp[0] * Qp[0]), math.floor(shp[1] * Qp[1])]
+    else:
+        o = [math.ceil(s * q) + 1 for s, q in zip(shp, Qp)]
+    return tuple(max(1, int(v)) for v in o)
+
+
+def size_class(shp):
+    n = shp[0] * shp[1]
+    return '>=262144' if n >= 262144 else ('>=65536' if n >= 65536 else '<65536')
+
+
+def wl_thresholds(ctx, rng):
+    """Class L: arrays large enough for a size-switched algorithm, with the other arguments at hostile near-coincidences (output sample
+    counts equal to ceil / floor / round(s Q) with s Q not an integer, zero and non-zero shifts, per-axis Q); every call is judged by the
+    ordinary contracts (textbook sum by separable matrix products, fresh executor)."""
+    from prysm import fttools, propagation as P
+    jobs, seen = [], set()
+
+    def add(shp, Q, ok):
+        key = (shp, tuple(pair(Q)), near_counts(shp, tuple(float(q) for q in pair(Q)), ok))      # round(s Q) is ceil or floor: no duplicates
+        if key not in seen:
+            seen.add(key)
+            jobs.append((shp, Q, ok))
+    for shp in L_SHAPES_BIG + L_SHAPES_MID:
+        for Q in (L_QUICK_QS.get(shp, L_QS) if ctx.quick else L_QS):
+            for ok in L_OUTKINDS[:3]:
+                add(shp, Q, ok)
+        add(shp, L_QS[len(jobs) % 4], 'ceil,floor')
+        add(shp, L_QS[(len(jobs) + 1) % 4], 'ceil+1')
+        add(shp, 1.0, 'ceil')
+        if not ctx.quick or shp[0] * shp[1] < 65536 or shp == (256, 256):
+            add(shp, 2, 'ceil')
+    for shp in L_SHAPES_XL + ctx.pick([], [(257, 256), (1024, 64), (64, 1100), (1024, 1024)]):
+        for Q in ((1.003,) if shp[0] * shp[1] >= 1000000 else ctx.pick((1.01,), (1.01, (1.01, 1.37)))):
+            for ok in L_OUTKINDS[:3]:
+                add(shp, Q, ok)
+    k = -1
+    for ji, (shp, Q, ok) in enumerate(jobs):
+        Qp = tuple(float(q) for q in pair(Q))
+        out = near_counts(shp, Qp, ok)
+        xl = shp[0] * shp[1] >= 262144
+        for method in ('mdft', 'czt'):
+            for fwd in (True, False):
+                if xl and ctx.quick and (ji + fwd) % 2:
+                    continue
+                k += 1
+                if not ctx.mine(k):
+                    continue
+                # unshifted always (zero spelled as int or float); in the quick tier one case in three also shifted, else every pattern
+                r = (k // ctx.nshards)
+                snames = ['zero-int' if r % 2 else 'zero-float']
+                if ctx.quick:
+                    snames += [('x-only', 'y-only', 'both')[r % 3]] if r % 4 == 0 or shp[0] * shp[1] < 65536 else []
+                else:
+                    snames = list(L_SHIFTS) if not xl else snames + ['x-only']
+                for sn in snames:
+                    seed = ctx.subseed(rng)
+                    a = make_input(shp, bool((r + len(sn)) % 2), seed)
+                    desc = {'wl': 'thresholds', 'in': shp, 'out': out, 'Q': Q, 'outkind': ok, 'shift': L_SHIFTS[sn], 'fwd': fwd, 'method': method, 'seed': seed,
+                            'keytag': f'size:{size_class(shp)}',
+                            'class': f'thresholds:{method}:{"fwd" if fwd else "inv"}:size{size_class(shp)}:{shape_kind(shp)}:Q{"pair" if Qp[0] != Qp[1] else "scalar"}:'
+                                     f'out={ok}:shift={sn}'}
+                    ctx.case(desc)
+                    ctx.observe('size.threshold-near-coincidence')
+                    # sample counts as a pair, or as an int for an equal pair (every other time)
+                    drive_engine(ctx, method, fwd, a, Q, out if (out[0] != out[1] or r % 2) else out[0], L_SHIFTS[sn], desc)
+                fttools.mdft.clear()
+                fttools.czt.clear()
+    # thin arrays of >= 65536 elements (a threshold on the element count alone), few output samples along the long axis
+    k = -1
+    for shp, out in (((1, 70000), (2, 17)), ((40000, 2), (19, 3)), ((2, 32768), (3, 31)), ((70001, 1), (23, 1))):
+        for method in ('mdft', 'czt'):
+            for fwd in (True, False):
+                k += 1
+                if not ctx.mine(k) or (ctx.quick and (k // ctx.nshards) % 2):
+                    continue
+                Q = (1.01, 1.37)[k % 2]
+                seed = ctx.subseed(rng)
+                sn = ('zero-int', 'x-only', 'zero-float', 'y-only')[(k // 2) % 4]
+                desc = {'wl': 'thresholds', 'in': shp, 'out': out, 'Q': Q, 'shift': L_SHIFTS[sn], 'fwd': fwd, 'method': method, 'seed': seed,
+                        'keytag': 'size:>=65536', 'class': f'thresholds:{method}:{"fwd" if fwd else "inv"}:thin:{shape_kind(shp)}:shift={sn}'}
+                ctx.case(desc)
+                ctx.observe('size.threshold-near-coincidence')
+                drive_engine(ctx, method, fwd, make_input(shp, True, seed), Q, out, L_SHIFTS[sn], desc)
+                fttools.mdft.clear()
+                fttools.czt.clear()
+    # the padded-FFT route and the fixed-sampling wrappers (square, so that the physical-Q contract applies) on large arrays
+    k = -1
+    wvl, efl, dxi = 0.6328, 100., 0.05
+    for N in (256, 300):
+        for Qt in (1.01, 1.37, 2.003):
+            for ok in L_OUTKINDS[:2] + (('ceil+1',) if not ctx.quick else ()):      # round(s Q) is one of the two
+                for method in ('mdft', 'czt'):
+                    for fwd in (True, False):
+                        k += 1
+                        if not ctx.mine(k):
+                            continue
+                        r = k // ctx.nshards
+                        if ctx.quick and N == 300 and r % 4:
+                            continue
+                        M = near_counts((N, N), (Qt, Qt), ok)[0]
+                        dxo = wvl * efl / (N * dxi) / Qt
+                        sn = 'zero-int' if r % 4 else 'x-only'
+                        shift = _typed_shift(L_SHIFTS[sn], dxo)
+                        route = 'focus_fixed_sampling' if fwd else 'unfocus_fixed_sampling'
+                        via = ('function', 'Wavefront')[(r // 2) % 2]
+                        seed = ctx.subseed(rng)
+                        a = make_input((N, N), True, seed)
+                        desc = {'wl': 'thresholds', 'route': route, 'via': via, 'in': (N, N), 'samples': M, 'Q_target': Qt, 'outkind': ok, 'method': method,
+                                'shift': shift, 'seed': seed, 'keytag': 'size:>=65536',
+                                'class': f'thresholds:{route}:{via}:{method}:N={N}:out={ok}:shift={sn}'}
+                        ctx.case(desc)
+                        ctx.observe('size.threshold-near-coincidence')
+                        CUR['desc'] = desc
+                        try:
+                            with ctx.guard(f'C01/{method}/size:>=65536/shift:{shift_class(L_SHIFTS[sn])}', desc, what=f'{route}(method={method}) on a large array'):
+                                if via == 'function':
+                                    getattr(P, route)(a, dxi, efl, wvl, dxo, M if r % 2 else (M, M), shift=shift, method=method)
+                                else:
+                                    w = P.Wavefront(a, wvl, dxi, space='pupil' if fwd else 'psf')
+                                    getattr(w, route)(efl, dxo, M if r % 2 else (M, M), shift=shift, method=method)
+                        finally:
+                            CUR['desc'] = None
+                            fttools.mdft.clear()
+                            fttools.czt.clear()
+    k = -1
+    for shp in ((256, 256), (300, 220), (64, 1030)):
+        for Q in (1, 1.01, 1.37, 2.003):
+            for fwd in (True, False):
+                k += 1
+                if not ctx.mine(k):
+                    continue
+                seed = ctx.subseed(rng)
+                a = make_input(shp, bool(k % 3), seed)
+                desc = {'wl': 'thresholds', 'route': 'focus' if fwd else 'unfocus', 'in': shp, 'Q': Q, 'seed': seed, 'keytag': 'size:>=65536',
+                        'class': f'thresholds:fft:{"fwd" if fwd else "inv"}:{shape_kind(shp)}:{"Q=1" if Q == 1 else "fracQ"}'}
+                ctx.case(desc)
+                ctx.observe('size.threshold-near-coincidence')
+                CUR['desc'] = desc
+                try:
+                    with ctx.guard('C01/fft-route/size:>=65536', desc):
+                        if k % 2:
+                            (P.focus if fwd else P.unfocus)(a, Q)
+                        else:
+                            w = P.Wavefront(a.astype(complex), 0.55, 0.1, space='pupil' if fwd else 'psf')
+                            (w.focus if fwd else w.unfocus)(100., Q=Q)
+                finally:
+                    CUR['desc'] = None
+
+
+# axis pairs m -> M for the chirp-Z convolution length m + M - 1: powers of two, one less, one more, primes, generic
+N_PAIRS = [(1, 1), (3, 1), (1, 5), (4, 4), (4, 5), (5, 5), (7, 3), (9, 9), (10, 8), (12, 21), (13, 11), (17, 17), (20, 14), (33, 33), (50, 16), (31, 2),
+           (64, 66), (100, 30), (6, 60), (65, 64)]
+
+
+def wl_backend(ctx, rng):
+    """Class N: every route under the numpy.fft backend (prysm.mathops.fft._srcmodule = numpy.fft, the documented switch), where the
+    fall-backs for what that backend lacks (next_fast_len) are live; judged by the same contracts."""
+    import numpy.fft as npfft
+    from prysm import fttools, propagation as P
+    from ..util import fft_backend, precision
+    fttools.mdft.clear()
+    fttools.czt.clear()
+    tag = 'backend:numpy.fft'
+    with fft_backend(npfft):
+        try:
+            k = -1
+            for rep in range(ctx.pick(1, 40)):
+                for i, (m, M) in enumerate(N_PAIRS):
+                    for (n, N) in ((m, M), N_PAIRS[(i * 7 + 3 + rep) % len(N_PAIRS)]):
+                        for method in ('czt', 'mdft'):
+                            for fwd in (True, False):
+                                k += 1
+                                if not ctx.mine(k):
+                                    continue
+                                r = k // ctx.nshards
+                                bits = 32 if r % 5 == 4 else 64
+                                qk, sk = Q_KINDS[int(rng.integers(3))], SHIFT_KINDS[r % 3]
+                                Q, shift = pick_Q(qk, rng), pick_shift(sk, rng)
+                                seed = ctx.subseed(rng)
+                                a = make_input((m, n), bool(r % 2), seed, bits=bits)
+                                desc = {'wl': 'backend', 'backend': 'numpy.fft', 'in': (m, n), 'out': (M, N), 'Q': Q, 'shift': shift, 'fwd': fwd, 'method': method,
+                                        'precision': bits, 'seed': seed, 'keytag': tag,
+                                        'class': f'backend:numpy.fft:{method}:{"fwd" if fwd else "inv"}:{grid_class(m, n, M, N)}:Q{qk}:sh{sk}:p{bits}'}
+                                ctx.case(desc, nontrivial=nontrivial(a))
+                                ctx.observe('backend.numpy-fft')
+                                with precision(bits):
+                                    drive_engine(ctx, method, fwd, a, Q, (M, N), shift, desc)
+                # the padded-FFT route and the wrappers
+                for i, (m, M) in enumerate(N_PAIRS):
+                    k += 1
+                    if not ctx.mine(k):
+                        continue
+                    n = N_PAIRS[(i * 3 + 1 + rep) % len(N_PAIRS)][0]
+                    seed = ctx.subseed(rng)
+                    a = make_input((m, n), True, seed)
+                    b = make_input((m, m), True, seed + 1)
+                    Qf = [1, 2, 1.5, 1.25][i % 4]
+                    wvl, efl, dxi = 0.55, 100., 0.1
+                    dxo = wvl * efl / (m * dxi) / [1, 2, 1.5, 3.3][(i + rep) % 4]
+                    desc = {'wl': 'backend', 'backend': 'numpy.fft', 'in': (m, n), 'Q': Qf, 'samples': M, 'output_dx': dxo, 'seed': seed, 'keytag': tag,
+                            'class': f'backend:numpy.fft:routes:{shape_kind((m, n))}:{parity(m)}->{parity(M)}'}
+                    ctx.case(desc, nontrivial=nontrivial(a))
+                    ctx.observe('backend.numpy-fft')
+                    CUR['desc'] = desc
+                    try:
+                        with ctx.guard(f'C01/routes/{tag}', desc, what='a route of the property under the numpy.fft backend'):
+                            P.focus(a, Qf)
+                            P.unfocus(a, Qf)
+                            P.Wavefront(b, wvl, dxi).focus(efl, Q=Qf).unfocus(efl, Q=1)
+                            pat = ((0, 0), (1.5, 0), (0.0, -2.0), (0.5, -1.25))[i % 4]
+                            sh = _typed_shift(pat, dxo)
+                            for method in ('czt', 'mdft'):
+                                P.focus_fixed_sampling(b, dxi, efl, wvl, dxo, M, shift=sh, method=method)
+                                P.Wavefront(make_input((M, M), True, seed + 2), wvl, dxo, space='psf').unfocus_fixed_sampling(
+                                    efl, dxi, (m, m), shift=_typed_shift(pat, dxi), method=method)
+                            if m > 1:
+                                P.to_fpm_and_back(b, dxi, efl, wvl, make_input((M, M), False, seed + 3), dxo, shift=sh, method=('czt', 'mdft')[i % 2])
+                    finally:
+                        CUR['desc'] = None
+            # arrays of >= 65536 elements under this backend (classes L and N together); m + M - 1 = 514, 602 / 520, ...
+            k = -1
+            for shp in ((256, 256), (300, 220)):
+                for Q in (1.01, (1.01, 1.37)):
+                    for ok in ('ceil', 'round'):
+                        for fwd in (True, False):
+                            k += 1
+                            if not ctx.mine(k) or (ctx.quick and (k // ctx.nshards) % 2):
+                                continue
+                            out = near_counts(shp, tuple(float(q) for q in pair(Q)), ok)
+                            seed = ctx.subseed(rng)
+                            sn = ('zero-int', 'both')[(k // 2) % 2]
+                            desc = {'wl': 'backend', 'backend': 'numpy.fft', 'in': shp, 'out': out, 'Q': Q, 'shift': L_SHIFTS[sn], 'fwd': fwd, 'method': 'czt', 'seed': seed,
+                                    'keytag': tag, 'class': f'backend:numpy.fft:czt:{"fwd" if fwd else "inv"}:size>=65536:out={ok}:shift={sn}'}
+                            ctx.case(desc)
+                            ctx.observe('backend.numpy-fft')
+                            drive_engine(ctx, 'czt', fwd, make_input(shp, True, seed), Q, out, L_SHIFTS[sn], desc)
+                            fttools.czt.clear()
+        finally:
+            fttools.mdft.clear()
+            fttools.czt.clear()
+
+
 # ------------------------------------------------------------------------------------------ entry points
 def run(ctx):
     global CTX
@@ -2107,6 +2391,8 @@ def run(ctx):
         timed('scales-units', wl_scales_units, ctx, ctx.rng('c01-scales'))
         timed('special-Q', wl_special_Q, ctx, ctx.rng('c01-special-Q'))
         timed('sizes', wl_sizes, ctx, ctx.rng('c01-sizes'))
+        timed('thresholds', wl_thresholds, ctx, ctx.rng('c01-thresholds'))
+        timed('backend', wl_backend, ctx, ctx.rng('c01-backend'))
         ctx.note('workload_seconds(first shard)', secs)
         ctx.note('largest_error_over_tolerance_among_held_comparisons(first shard)', {k: float(f'{v:.2e}') for k, v in sorted(STATS.items())})
     finally:
